@@ -13,8 +13,8 @@
 
 long mvregs_call(void (*fn)(void *), void *arg, const unsigned long pat[6], unsigned long out[6]);
 
-enum { Q_NWORKERS, Q_QSIZE, Q_PFIRST, Q_YIELD_PM, Q_SEED, R_NTHREADS, R_NOPS, R_ARRWORDS, R_NP };
-static const char *const names[] = { "nworkers", "queue_size", "parent_first", "yield_pm", "seed", "nthreads", "nops", "arrwords" };
+enum { Q_NWORKERS, Q_QSIZE, Q_PFIRST, Q_YIELD_PM, Q_SEED, R_NTHREADS, R_NOPS, R_ARRWORDS, R_STACK_EXTRA, R_NP };
+static const char *const names[] = { "nworkers", "queue_size", "parent_first", "yield_pm", "seed", "nthreads", "nops", "arrwords", "def_stack_extra" };
 static const long *P;
 static int NT;
 static myth_thread_t TH[16];
@@ -34,6 +34,8 @@ static void gen(mvsim_rng *r, long *p, int tier) {
   p[R_NOPS] = mvh_range(r, 3, tier ? 40 : 16);
   static const long aw[] = { 32, 64, 128, 512 };
   p[R_ARRWORDS] = mvh_pick(r, aw, 4);
+  static const long ex[] = { 0, 0, 8, 24, 1000, 4088, 520 };
+  p[R_STACK_EXTRA] = mvh_pick(r, ex, 7);   /* default stack sizes that are not a multiple of 16 / of the page size */
   wl_gen_common(r, &p[Q_NWORKERS], &p[Q_QSIZE], &p[Q_PFIRST], p[R_NTHREADS] * 3);
   p[Q_YIELD_PM] = 500; p[Q_SEED] = (long)(mvsim_rng_next(r) >> 20);
 }
@@ -129,6 +131,7 @@ static void run(const long *p, mvsim_runcfg *cfg, mvsim_runstats *st) {
   cond_arrived = 0; rm_occ = 0; migrations = 0; memset(ops_done, 0, sizeof ops_done); memset((void *)UC, 0, sizeof UC);
   cfg->clk_read_ns = 400; cfg->clk_jump_permille = 0;
   cfg->budget1 += 20000 * (uint64_t)p[R_NOPS] * NT; cfg->budget2 += 100000 * (uint64_t)p[R_NOPS] * NT;
+  wl_def_stack_extra = p[R_STACK_EXTRA];
   wl_begin(cfg, p[Q_NWORKERS], 64, p[Q_QSIZE], (int)p[Q_PFIRST]);
   myth_mutex_init(&RM, 0); myth_mutex_init(&CM, 0); myth_cond_init(&CC, 0); myth_barrier_init(&RB, 0, NT);
   for (int s = 0; s < NT / 2; s++) myth_uncond_init(&UC[s].u);
